@@ -17,7 +17,7 @@ RULE = (
     "json.dumps(schema.to_json_like()) succeeds; Schema.from_json_like(json.loads(text)) == schema (both directions); "
     "is_valid / num_failures / failing paths per rule / exact cast_data agree between the original, the rebuilt schema and "
     "the reference on 2 documents; the same for every single rule through Rule.to_json_like / from_json_like. "
-    "Non-trivial: >=1 rule whose cast fires on a document, or >=2 rules; distinct by hash of the (schema, documents) term."
+    "35% of cases are HISTORIES: the schema is serialised, grown with add_schema(T, root) and serialised again (the grown schema is modelled as in C18). Non-trivial: >=1 rule whose cast fires on a document, or >=2 rules; distinct by hash of the (schema, documents) term."
 )
 ASSUMPTIONS = ["rule docs are not part of the JSON-like form (Rule equality and to_json_like ignore them)"]
 
@@ -36,7 +36,16 @@ def gen_case(r):
                 v, pth = r.choice(sel)
                 if not isinstance(v, (list, dict)):
                     model.walk(d, pth[:-1])[pth[-1]] = r.choice(GOOD[rl.cast])
-    return SchemaT(rules), [d, G.hostile_doc(r, 3)]
+    # history: serialise, add a second schema under a root, serialise again
+    extra = None
+    if r.pct() < 35:
+        root = G.guided_path(r, d, max_len=2, miss=10, mode="typed", prim_only=True)
+        sel = model.ref_select(root.parts, d) if root.parts else [(d, ())]
+        conts = [v for v, _ in sel if isinstance(v, (dict, list)) and v]
+        sub = r.choice(conts) if conts else d
+        T = G.schema_for(r, sub, min_rules=1, max_rules=2, mode="typed", cast_p=50, cond_depth=1, max_len=2, meaningful=True, jsonable=True)
+        extra = (T, root, r.coin(70))
+    return SchemaT(rules), [d, G.hostile_doc(r, 3)], extra
 
 
 def summ(vd, schema):
@@ -45,7 +54,7 @@ def summ(vd, schema):
 
 
 def body(case):
-    schema, docs = case
+    schema, docs, extra = case
     out = Outcome()
     ns = build.ns()
     fired = False
@@ -60,6 +69,16 @@ def body(case):
     out.sample = show(schema, 500)
     try:
         S = build.build_schema(schema)
+        if extra is not None:
+            T, root, prime = extra
+            if prime:
+                S.to_json_like()  # serialised once before it grows
+            S.add_schema(build.build_schema(T), build.build_path(root))
+            # the model of the grown schema (as C18): previous rules, then T's re-rooted
+            own = [schema.rules[i] for i in model.rule_order(schema.rules)]
+            new = [RuleT(PathT(list(root.parts) + list(t.path.parts)), t.cond, t.cast) for t in (T.rules[i] for i in model.rule_order(T.rules))]
+            schema = SchemaT(sorted(own + new, key=lambda x: len(x.path.parts)))
+            out.label("after-add_schema", "primed" if prime else "unprimed")
     except Exception as e:
         out.exc("build", e)
         return out
